@@ -183,6 +183,7 @@ def run_case(arg):
         user_before = dict(user)
         polar = None
         cart = None
+        live = []
         for si, e in enumerate(hist[1:], start=1):
             act = e["act"]
             if act == "Standardize":
@@ -194,17 +195,49 @@ def run_case(arg):
                 check_polar_state(va, e, "Standardize:validator", 1e-9, 1e-9)
                 if user != user_before:
                     bad("C12:Standardize:input-modified", "the caller's coefficient dictionary was modified")
-                if idx % 4 == 0:
+                if idx % 4 == 0 or any(x["act"] == "Reassign" for x in hist):
                     from quantem.diffractive_imaging.probe_models import ProbeParametric, ProbePixelated
                     for cls in (ProbePixelated, ProbeParametric):
                         kw = {"roi_shape": (8, 8)} if cls is ProbeParametric else {}
                         pm = cls.from_params({"energy": 80e3, "semiangle_cutoff": 20, **user}, **kw)
                         check_polar_state(dict(pm.probe_params["aberration_coefs"]), e, f"Standardize:{cls.__name__}", 1e-9, 1e-9)
+                        live.append(pm)
                 polar = {k_: v.to(torch.float64) for k_, v in st.items()}
                 # continue from the exact (float64) polar values so that later steps are not limited by float32 angles
                 polar = {k_: torch.tensor(float(v), dtype=torch.float64) for k_, v in va.items()}
                 lattice_grid_checks(polar, e, "Standardize", 2e-4)
                 fit_checks(e, "Standardize")
+            elif act == "Reassign":
+                # coefficients handed to a LIVE probe model a second time: the named term takes the new value under the alias rule
+                n, m = e["t"]
+                uk, al = e["dv"]
+                ent = next(r for r in e["rep"] if (r[0], r[1]) == (n, m))
+                d1, d2 = ent[3], ent[4]
+                mod = math.hypot(d1, d2)
+                cname, pname = f"C{n}{m}", f"phi{n}{m}"
+                if al and (n, m) in ALIAS:
+                    cname, pn = ALIAS[(n, m)]
+                    pname = pn or pname
+                newd = {cname: float(uk * mod) if m else float(uk)}
+                if m:
+                    newd[pname] = math.atan2(d2, d1) / m
+                want = complex(ent[2] * d1, ent[2] * d2)
+                for pm in live:
+                    pm.probe_params = dict(newd)
+                    got = _complex_of(pm.probe_params["aberration_coefs"], n, m)
+                    if abs(got - want) > 1e-9 * (1 + abs(want)):
+                        bad("C12:Reassign:coefficient", f"{type(pm).__name__}.probe_params = {newd} on a live model: C{n}{m} exp(i m phi) = {got:.6g}, "
+                                                         f"the dictionary means {want:.6g}")
+                        break
+                # the other sites with the same dictionary
+                for site, fn in (("standardize", cp.standardize_aberration_coefs), ("validator", validate_aberration_coefficients)):
+                    got = _complex_of(fn(dict(newd)), n, m)
+                    if abs(got - want) > 1e-5 * (1 + abs(want)):
+                        bad("C12:Reassign:coefficient", f"{site}({newd}): C{n}{m} exp(i m phi) = {got:.6g}, the dictionary means {want:.6g}")
+                polar = dict(polar)
+                polar[f"C{n}{m}"] = torch.tensor(float(ent[2] * mod) if m else float(ent[2]), dtype=torch.float64)
+                if m:
+                    polar[f"phi{n}{m}"] = torch.tensor(math.atan2(d2, d1) / m, dtype=torch.float64)
             elif act == "ToCart":
                 polar_in = dict(polar)
                 cart = cp.polar_to_cartesian_aberrations(polar, dtype=torch.float64)
